@@ -555,6 +555,12 @@ func checkGoroutines(w *World, r *Report, fns []*ssa.Function) {
 		})
 		return true
 	})
+	if !drains {
+		drains = drainsBySSA(parse)
+		if drains && chanObj == nil {
+			chanObj = types.NewVar(token.NoPos, nil, "tokens", nil) // identified on the SSA form
+		}
+	}
 	switch {
 	case chanObj == nil:
 		r.Fail("goroutine", key, w.Pos(parse.Pos()), "cannot identify the token channel handed to the parser", nil)
@@ -1107,4 +1113,83 @@ func pkgStringTable(w *World, info *types.Info, id *ast.Ident) []string {
 		}
 	}
 	return out
+}
+
+
+// drainsBySSA: a deferred function literal of fn that calls recover contains
+// a loop that receives from a channel with the comma-ok form (this is also
+// how `for range ch` is compiled) and can only be left when the channel
+// reports that it is closed and empty.
+func drainsBySSA(fn *ssa.Function) bool {
+	for _, af := range fn.AnonFuncs {
+		callsRecover := false
+		for _, b := range af.Blocks {
+			for _, in := range b.Instrs {
+				if c, ok := in.(*ssa.Call); ok {
+					if bi, ok := c.Call.Value.(*ssa.Builtin); ok && bi.Name() == "recover" {
+						callsRecover = true
+					}
+				}
+			}
+		}
+		if !callsRecover {
+			continue
+		}
+		for _, l := range naturalLoops(af) {
+			// the receive and its ok flag
+			var okFlags []ssa.Value
+			for b := range l.body {
+				for _, in := range b.Instrs {
+					u, ok := in.(*ssa.UnOp)
+					if !ok || u.Op != token.ARROW || !u.CommaOk {
+						continue
+					}
+					if u.Referrers() == nil {
+						continue
+					}
+					for _, ref := range *u.Referrers() {
+						if ex, ok := ref.(*ssa.Extract); ok && ex.Index == 1 {
+							okFlags = append(okFlags, ex)
+						}
+					}
+				}
+			}
+			if len(okFlags) == 0 {
+				continue
+			}
+			good := true
+			exits := 0
+			for b := range l.body {
+				for si, s := range b.Succs {
+					if l.body[s] {
+						continue
+					}
+					exits++
+					// the exit must be the not-ok side of a test of the flag
+					ifi, ok := b.Instrs[len(b.Instrs)-1].(*ssa.If)
+					if !ok {
+						good = false
+						continue
+					}
+					cond, side := ifi.Cond, 1
+					if u, ok := cond.(*ssa.UnOp); ok && u.Op == token.NOT {
+						cond, side = u.X, 0
+					}
+					isFlag := false
+					for _, f := range okFlags {
+						if f == cond {
+							isFlag = true
+						}
+					}
+					if !isFlag || si != side {
+						good = false
+					}
+				}
+			}
+			if good && exits > 0 {
+				return true
+			}
+		}
+	}
+	return false
 }
